@@ -176,7 +176,7 @@ def run_shard(spec):
             f = ls.step(op, exp)
             if f:
                 bad = True
-                if not (f["kind"] == "mismatch" and kf.is_open("KF1", ID) and mgrmon.has_structural_cycle(ls.runner.mgr)):
+                if not (f["kind"] == "mismatch" and kf.is_open("KF1", ID) and mgrmon.shadow_structural_cycle(hg.shadow, ls.runner)):
                     violations.append({"what": "C12 history (C01 oracle) failed: %s" % (f,), "world": hg.world, "ops": list(ls.ops)})
                 break
         if bad:
@@ -288,7 +288,7 @@ def run_shard(spec):
             ca, cb = cont(real), cont(twin)
             want = {k: canon(v) for k, v in exp.items()}
             if ca != cb or ca != want:
-                if kf.is_open("KF1", ID) and (mgrmon.has_structural_cycle(real.mgr) or mgrmon.has_structural_cycle(twin.mgr)):
+                if kf.is_open("KF1", ID) and mgrmon.shadow_structural_cycle(hg.shadow, real):
                     known.append(kf.known("KF1"))
                 else:
                     diff = [(k, ca.get(k), cb.get(k), want.get(k)) for k in want if not (ca.get(k) == cb.get(k) == want.get(k))]
